@@ -57,7 +57,7 @@ VersOf(L) ==
 
 QOf(L) == [c \in Ctls |-> IF c = "tx" THEN TxIdsOf(L.q[c], Len(L.txs)) ELSE Range(L.q[c])]
 
-ProbeOf(L) == [obs |-> L.obs, get |-> L.get, quiet |-> L.quiet, spin |-> L.spin, n |-> L.probe.n, act |-> L.act.k]
+ProbeOf(L) == [obs |-> L.obs, get |-> L.get, quiet |-> L.quiet, spin |-> L.spin, n |-> L.probe.n, act |-> L.act.k, overrun |-> L.overrun]
 
 \* bind every specification variable (primed) to line n; the history variables grow by the line's deltas
 Bind(n, fresh) ==
@@ -90,7 +90,7 @@ Bind(n, fresh) ==
 TraceInit ==
     /\ l = 0
     /\ Init
-    /\ probe = [obs |-> FALSE, get |-> EmptyFn, quiet |-> FALSE, spin |-> FALSE, n |-> 0, act |-> "none"]
+    /\ probe = [obs |-> FALSE, get |-> EmptyFn, quiet |-> FALSE, spin |-> FALSE, n |-> 0, act |-> "none", overrun |-> FALSE]
     /\ viol = {}
     /\ drift = FALSE
 
@@ -123,14 +123,16 @@ T_ProbeClean == probe.act = "probe" => probe.n = 0
 \* (quiet) or with every pending id reconciled without any effect since the last effect (spin).  The clauses that
 \* speak about the idle system are evaluated where the specification says the state is stable OR the real code
 \* was observed at its fixed point - a change that makes the real controllers stop early must not make them vacuous.
-RealFixpoint == probe.act = "drain" /\ (probe.quiet \/ probe.spin) /\ up /\ infl = EmptyFn
+RealFixpoint == probe.act = "drain" /\ (probe.quiet \/ probe.spin) /\ ~probe.overrun /\ up /\ infl = EmptyFn
+\* the real controllers come to rest: a drain of the real work sets (1500 reconciles) ends at a fixed point
+T_DrainTerminates == ~probe.overrun
 TStable == Stable \/ RealFixpoint
 
 StateNames == {"C01_NoPartialCommit", "C01_FailedNeverMerged", "C01_AtomicAtQuiescence", "C01_CommittedIsReadable",
                "C01_ReportedFailed", "C02_MergeOrdered", "C02_ApplyOrdered", "C02_ApplyAfterPredecessors",
                "C02_ApplyOnlyMerged", "C04_Converged", "C05_ValidatedBeforeMerged", "C05_ValidatedIsReadable",
                "C05_RejectedChangesNothing", "C06_RollbackRestores", "C06_RollbackRefused", "C07_MergedOnce",
-               "C07_NoneSkipped", "C07_NotBlocked", "C07_DeviceConverged", "C07_SameDecision", "C07_SameConfiguration", "C08_TruthfulSuccess",
+               "C07_NoneSkipped", "C07_NotBlocked", "C06_RollbackCompletes", "C09_ComesToRest", "C07_DeviceConverged", "C07_SameDecision", "C07_SameConfiguration", "C08_TruthfulSuccess",
                "C08_TruthfulFailure", "C08_NoHang", "C08_ResponseContent", "C09_QuiescentIsFixpoint",
                "C09_AllTerminal", "C09_ProbeClean", "C10_OneMasterPerTerm", "C11_OnlyRealRefusalsFail",
                "C11_TxReportsClass", "C11_RefusalFails", "C03_GetIsLiveView"}
@@ -155,7 +157,9 @@ StateClause(name) ==
       [] name = "C07_NoneSkipped" -> C07_NoneSkippedAt(TStable)
       [] name = "C07_SameDecision" -> C07_SameDecisionAt(TStable)
       [] name = "C07_SameConfiguration" -> C07_SameConfigurationAt(TStable)
-      [] name = "C07_NotBlocked" -> C07_NotBlockedAt(TStable)
+      [] name = "C07_NotBlocked" -> C07_NotBlockedAt(TStable) /\ T_DrainTerminates
+      [] name = "C06_RollbackCompletes" -> T_DrainTerminates
+      [] name = "C09_ComesToRest" -> T_DrainTerminates
       [] name = "C07_DeviceConverged" -> C07_DeviceConvergedAt(TStable)
       [] name = "C08_TruthfulSuccess" -> C08_TruthfulSuccess
       [] name = "C08_TruthfulFailure" -> C08_TruthfulFailure
